@@ -146,6 +146,12 @@ def cases(ctx):
         k += 1
         if ctx.mine(k):
             yield {"kind": "first-use", "mode": mode, "expect": "out"}
+    # ---- header fields and hardware angles that are not integers at all (a float, a numeric string): refused, not rounded / parsed ----
+    for site in ("app", "version", "hw-num", "hw-denom"):
+        for v in (5.7, "7", 2.0, "0x3"):
+            k += 1
+            if ctx.mine(k):
+                yield {"kind": "non-integer", "site": site, "value": v, "expect": "out"}
     # ---- a subroutine that was encoded once, then had an array operand edited IN PLACE to something unrepresentable ----
     for what in ("entry-index-16", "entry-address-2^32", "slice-stop-16", "slice-address-negative-overflow", "slice-start-16"):
         k += 1
@@ -324,6 +330,35 @@ def run_case(ctx, case):
         for v in rep["violations"][:1]:
             ctx.fail(case, f"silently altered: in a process whose first {v['mnemonic']} carried its operands as {case['mode']}, "
                            f"{[v['mnemonic'], v['values']]} was encoded without error and decodes as {v['decoded']}")
+        return ctx.case(case, True)
+    if kind == "non-integer":
+        from netqasm.lang.parsing import deserialize
+        from netqasm.lang.subroutine import Subroutine
+        site, v = case["site"], case["value"]
+        ctx.count("non_integer_values_offered")
+        try:
+            if site in ("app", "version"):
+                sub = Subroutine(instructions=[], netqasm_version=(1, v) if site == "version" else (1, 2), app_id=v if site == "app" else 3)
+                raw = bytes(sub)
+                dec = deserialize(raw)
+                shown = f"app {dec.app_id} version {tuple(dec.netqasm_version)}"
+            else:
+                from netqasm.lang.instr import vanilla
+                from netqasm.lang.operand import Immediate
+                from netqasm.runtime.settings import set_is_using_hardware
+                from netqasm.sdk.transpile import NVSubroutineTranspiler
+                ins = vanilla.RotXInstruction(reg=codec.mk_reg(["Q", 0]), imm0=Immediate(v if site == "hw-num" else 3), imm1=Immediate(v if site == "hw-denom" else 2))
+                set_is_using_hardware(True)
+                try:
+                    out_ = NVSubroutineTranspiler(Subroutine(instructions=[codec.mk_instr(codec.flavour_obj("vanilla"), "vanilla", "set", [["Q", 0], 0]), ins], app_id=0)).transpile()
+                    raw = bytes(out_)
+                finally:
+                    set_is_using_hardware(False)
+                shown = str([str(i) for i in deserialize(raw, flavour=codec.flavour_obj("nv")).instructions])
+        except Exception:
+            ctx.count("out_of_range_rejected")
+            return ctx.case(case, True)
+        ctx.fail(case, f"silently altered: the {type(v).__name__} {v!r} given as {site} was encoded without error as {shown}")
         return ctx.case(case, True)
     if kind == "nested-edit-after-encoding":
         from netqasm.lang.encoding import RegisterName
